@@ -801,3 +801,47 @@ Proof.
   destruct (iso_dup_model h tinit [] [] tinit_inv2) as [H1 H2]. rewrite tagree_model, H1, H2.
   change k_empty with k0. rewrite (own_model h tinit k0 [] minv_init kinv_init Hfr). reflexivity.
 Qed.
+
+(* ---------- C03's TCP predicate: conjuncts of C16's ---------- *)
+From Turn Require Import C03TcpCheck.
+Lemma auth_model : forall h s st used, MInv s -> KInv s st used -> cids_fresh used h -> auth_from st (tmodel_steps s h) = true.
+Proof.
+  induction h as [|e h IH]; intros s st used M K Hfr; [reflexivity|]. cbn [tmodel_steps].
+  destruct (tstep s e) as [s' acts] eqn:Hs. cbn [auth_from ts_ev ts_acts].
+  assert (Hfr1 : match ev_cid e with Some k => ~ In k used | None => True end).
+  { cbn [cids_fresh] in Hfr. destruct (ev_cid e); [apply Hfr|exact I]. }
+  assert (Hfr2 : cids_fresh (used' e used) h).
+  { cbn [cids_fresh] in Hfr. unfold used'. destruct (ev_cid e); [apply Hfr|exact Hfr]. }
+  destruct (kstep_ok s e s' acts st used M K Hfr1 Hs) as (C & M' & K').
+  unfold k_step in C. cbn [fst ts_ev ts_acts] in C.
+  repeat (apply andb_true_iff in C as [C ?]).
+  match goal with Hb : k_binds _ _ _ _ = true |- _ => rewrite (binds_own _ _ _ _ Hb), Hb end.
+  match goal with Hb : k_owner_bind _ _ _ _ = true |- _ => rewrite Hb end.
+  cbn [andb]. eapply IH; eauto.
+Qed.
+Theorem c03_tcp_on_model h : cids_fresh [] h -> C03TcpCheck.run (tmodel_case h) = (true, true).
+Proof.
+  intros Hfr. unfold C03TcpCheck.run, tmodel_case. cbn [tc_steps]. rewrite tagree_model.
+  change k_empty with k0. rewrite (auth_model h tinit k0 [] minv_init kinv_init Hfr). reflexivity.
+Qed.
+
+(* ---------- C09's TCP predicate: the manager never wedges ---------- *)
+From Turn Require Import C09TcpCheck.
+Lemma live_model : forall h s st used, MInv s -> KInv s st used -> cids_fresh used h -> live_from (tmodel_steps s h) = true.
+Proof.
+  induction h as [|e h IH]; intros s st used M K Hfr; [reflexivity|]. cbn [tmodel_steps].
+  destruct (tstep s e) as [s' acts] eqn:Hs. unfold live_from. cbn [forallb ts_acts].
+  assert (Hfr1 : match ev_cid e with Some k => ~ In k used | None => True end).
+  { cbn [cids_fresh] in Hfr. destruct (ev_cid e); [apply Hfr|exact I]. }
+  assert (Hfr2 : cids_fresh (used' e used) h).
+  { cbn [cids_fresh] in Hfr. unfold used'. destruct (ev_cid e); [apply Hfr|exact Hfr]. }
+  destruct (kstep_ok s e s' acts st used M K Hfr1 Hs) as (C & M' & K').
+  unfold k_step in C. cbn [fst ts_ev ts_acts] in C.
+  repeat (apply andb_true_iff in C as [C ?]). rewrite C. cbn [andb].
+  fold (live_from (tmodel_steps s' h)). eapply IH; eauto.
+Qed.
+Theorem c09_tcp_on_model h : cids_fresh [] h -> C09TcpCheck.run (tmodel_case h) = (true, true).
+Proof.
+  intros Hfr. unfold C09TcpCheck.run, tmodel_case. cbn [tc_steps]. rewrite tagree_model.
+  rewrite (live_model h tinit k0 [] minv_init kinv_init Hfr). reflexivity.
+Qed.
